@@ -345,6 +345,11 @@ func (u *U) Eq(a, b *E) *E {
 	if a.IsNil() && b.IsNil() {
 		return u.Bool(True)
 	}
+	// an interface made from a concrete value has a dynamic type and is never nil (even when the
+	// value is a nil pointer)
+	if (a.Op == "mkiface" && b.IsNil()) || (b.Op == "mkiface" && a.IsNil()) {
+		return u.Bool(False)
+	}
 	// index-like results: i == -1  ->  i < 0
 	if bv, ok := b.IntVal(); ok && indexLike(a) {
 		if bv == -1 {
